@@ -192,6 +192,24 @@ class TaskRunner:
         else:
             raise TaskError(f'Task "{name}" could not be found')
 
+    @staticmethod
+    def sequence(targets):
+        """Order targets such that each comes after its dependencies.
+
+        Note that Target.__gt__ is only a partial order, so list.sort
+        cannot be used here: it may place a target before a dependency.
+        """
+        todo = sorted(targets, key=lambda target: target.name)
+        sequence = []
+        while todo:
+            # Loops were ruled out, so some target has no pending dependency
+            target = next(
+                t for t in todo if not any(t > other for other in todo)
+            )
+            todo.remove(target)
+            sequence.append(target)
+        return sequence
+
     def run(self, project, targets=()):
         """Try to run a project"""
         # Determine what targets to run:
@@ -221,7 +239,7 @@ class TaskRunner:
         target_list = [
             project.get_target(target_name) for target_name in target_list
         ]
-        target_list.sort()
+        target_list = self.sequence(target_list)
 
         self.logger.info(f"Target sequence: {target_list}")
 
